@@ -120,6 +120,10 @@ func Open(filename string, opts ...Option) (*Whisper, error) {
 		w.file.Close()
 		return nil, fmt.Errorf("readHeader: %s: %s", filename, err)
 	}
+	if want := w.header.ExpectedFileSize(); st.Size() < want {
+		w.file.Close()
+		return nil, fmt.Errorf("open: %s: file is %d bytes but its header requires %d", filename, st.Size(), want)
+	}
 	return w, nil
 }
 
